@@ -1546,3 +1546,87 @@ theorem AP_S_eq_ofM (ap : AP) (size : Int) (sls : List (Option Sl)) :
   rwa [toM_ofM] at this
 
 end TM.Gen
+
+namespace TM.Gen
+open TM
+set_option linter.unusedSimpArgs false
+
+/-! ### `Itol` -/
+
+/-- the coordinates a run of the translated loop delivers, if it comes to an end -/
+def itolCoords (r : GoM (Ctl (List Int × GoErr) (List Int × GoErr × Int))) : Option (List Int) :=
+  match r with
+  | .ok (Ctl.next s) => some s.1
+  | .ok (Ctl.ret r) => some r.1
+  | .error _ => none
+
+def okCoords (acc : List Int) (r : Res (List Int)) : Option (List Int) :=
+  match r with
+  | .ok cs => some (acc ++ cs)
+  | .error _ => none
+
+theorem Itol_loop1_coords (dims : Int) (shape strides : List Int) (hl : strides.length ≤ shape.length) :
+    ∀ (m k : Nat), k + m = strides.length → ∀ (sh' : List Int) (coords : List Int) (err : GoErr) (i : Int),
+    itolCoords (Itol_loop1 dims shape strides (upFrom m (k : Int)) coords err i) =
+      okCoords coords (itol.go i sh' (strides.drop k)) := by
+  intro m
+  induction m with
+  | zero =>
+    intro k hk sh' coords err i
+    have : strides.drop k = [] := List.drop_eq_nil_of_le (by omega)
+    cases sh' <;> simp [upFrom, Itol_loop1, itolCoords, okCoords, this, itol.go, pure, Except.pure]
+  | succ m ih =>
+    intro k hk sh' coords err i
+    have hks : k < strides.length := by omega
+    have hksh : k < shape.length := by omega
+    have hd : strides.drop k = strides[k] :: strides.drop (k + 1) := (List.drop_eq_getElem_cons hks)
+    rw [upFrom_succ, Itol_loop1, hd, itol.go]
+    simp only [gidx_lt strides k hks, gidx_lt shape k hksh, bind, Except.bind, pure, Except.pure]
+    by_cases h0 : strides[k] = 0
+    · simp [h0, divmod, gpanic, itolCoords, okCoords, throwPanic, throw, throwThe, MonadExceptOf.throw]
+    · have hb : (strides[k] == 0) = false := by simpa using h0
+      simp only [divmod, hb, Bool.false_eq_true, if_false, pure, Except.pure]
+      have hnext := fun e => ih (k + 1) (by omega) sh'.tail (coords ++ [Int.tdiv i strides[k]]) e (Int.tmod i strides[k])
+      have hcast : ((k : Int) + 1) = ((k + 1 : Nat) : Int) := by omega
+      by_cases hge : Int.tdiv i strides[k] ≥ shape[k]
+      · simp only [hge, decide_true, if_true]
+        rw [hcast, hnext]
+        unfold goMod goDiv
+        cases itol.go (Int.tmod i strides[k]) sh'.tail (strides.drop (k + 1)) <;> simp [okCoords]
+      · simp only [hge, decide_false, Bool.false_eq_true, if_false]
+        rw [hcast, hnext]
+        unfold goMod goDiv
+        cases itol.go (Int.tmod i strides[k]) sh'.tail (strides.drop (k + 1)) <;> simp [okCoords]
+
+/-- **`Itol` of `utils.go`, as translated from the source on this run, returns the model's coordinates** and comes to an
+    end exactly when the model's `itol` does (a zero stride is the divide panic in both), for every index, shape with at
+    least as many extents as there are strides, and stride vector. (The source also reports, without stopping, an
+    extent that a coordinate reaches; the model's callers never look at that error.) -/
+theorem Itol_coords (i : Int) (shape strides : List Int) (hl : strides.length ≤ shape.length) :
+    (match Itol i shape strides with | .ok r => some r.1 | .error _ => none) =
+      (match itol i shape strides with | .ok cs => some cs | .error _ => none) := by
+  have h := Itol_loop1_coords (len strides) shape strides hl strides.length 0 (by omega) shape [] none i
+  unfold Itol itol
+  simp only [rangeUp, len, bind, Except.bind, pure, Except.pure]
+  have hn : ((strides.length : Int) - 0).toNat = strides.length := by omega
+  rw [hn]
+  simp only [len, List.drop_zero, Int.natCast_zero] at h
+  revert h
+  cases Itol_loop1 (strides.length : Int) shape strides (upFrom strides.length 0) [] none i with
+  | error e =>
+    intro h
+    cases hm : itol.go i shape strides with
+    | error _ => rfl
+    | ok cs => rw [hm] at h; simp [itolCoords, okCoords] at h
+  | ok v =>
+    intro h
+    cases v with
+    | ret r =>
+      cases hm : itol.go i shape strides with
+      | error _ => rw [hm] at h; simp [itolCoords, okCoords] at h
+      | ok cs => rw [hm] at h; simp [itolCoords, okCoords] at h; simp [h]
+    | next s =>
+      cases hm : itol.go i shape strides with
+      | error _ => rw [hm] at h; simp [itolCoords, okCoords] at h
+      | ok cs => rw [hm] at h; simp [itolCoords, okCoords] at h; simp [h]
+end TM.Gen
